@@ -185,6 +185,19 @@ _CX = object()
 _INF = object()
 
 
+def _tsize(t, cap):
+  """number of AST nodes of t (DAG-aware), stopping at cap"""
+  seen = set(); stack = [t]; n = 0
+  while stack:
+    e = stack.pop()
+    i = e.get_id()
+    if i in seen: continue
+    seen.add(i); n += 1
+    if n > cap: return n
+    stack.extend(e.children())
+  return n
+
+
 class Sym:
   """Real-valued symbolic number n/d (d is None for 1); c = constant value."""
   __slots__ = ("c", "n", "d")
@@ -193,6 +206,9 @@ class Sym:
   def __init__(self, n=None, d=None, c=None):
     self.c = c
     if c is None:
+      # z3.simplify(som=True) on a huge product can run for hours inside C code (no watchdog can interrupt it)
+      if _tsize(n, 20000) > 20000:
+        raise Unsupported("symbolic term grew beyond 20000 nodes before normalisation (degree blow-up)")
       n = _S(n)
       if d is not None:
         d = _S(d)
